@@ -13,7 +13,8 @@ LEVEL = "exploration"
 RULE = ("inputs = (a) full product of the per-position token alphabet (accepted literals, near-misses, search symbols, "
         "junk, empty, control characters) for 0..N segments, each under every uri form (no prefix, every configured "
         "type, unknown type, empty type, 2-3 colons); (b) every string within k edits (substitute/delete/duplicate/"
-        "insert/append) of each type's skeleton x value representatives. distinct = distinct input strings "
+        "insert/append) of each type's skeleton x value representatives, plus every member of every closed vocabulary "
+        "(and its one-character near-misses / glued pairs) substituted at its position, plain and type-forced. distinct = distinct input strings "
         "(exact, content-hash sharding); non-trivial = input is typed by the reference, or is within one edit of a "
         "typed string, or carries a uri prefix / control character (i.e. everything except plain far-off junk).")
 ASSUMPTIONS = ["inputs contain no '?' (query handling is C04)", "reference typing = per-segment re.fullmatch against the "
@@ -138,6 +139,21 @@ def apply_edit(segs, e):
     return s
 
 
+def vocabulary_sweep(ref, typ, segs):
+    """Every member of every closed vocabulary at its position (aliases, members that extend or are extended by another
+    member: 'ma'/'maya', 'mov'/'movie'), plus the near-misses of each member: one character less, one more, two members glued."""
+    pool = ref.literals() + ref.digit_instances()
+    for i, (_key, p) in enumerate(ref.templates[typ]):
+        if p is None:
+            continue
+        acc = ref.accepted(typ, i, pool)
+        for v in acc:
+            cands = [v, v[:-1], v + "x", v + acc[0], acc[0] + v, v.upper()]
+            for c in cands:
+                if c != segs[i]:
+                    yield "/".join(segs[:i] + [c] + segs[i + 1:])
+
+
 def gen_edits(ref, reps, k):
     toks = edit_menu(ref)
     forms = uri_forms(ref)
@@ -152,6 +168,9 @@ def gen_edits(ref, reps, k):
                     yield typ + ":" + w
                     yield ":" + w
                     yield w
+        for st in vocabulary_sweep(ref, typ, segs):
+            yield st
+            yield typ + ":" + st
         singles = list(single_edits(segs, toks))
         for e in singles:
             s1 = apply_edit(segs, e)
